@@ -124,6 +124,22 @@ def run(rep, tier, seed):
         if toc != want_toc:
             rep.fail("G06/toc", f"{pat}: table of contents {toc}, model {want_toc}", replay); continue
         tally["ok"] += 1
+    # negative controls: the comparison must notice a structure that differs in one place (vacuity guard)
+    neg_tried = neg_caught = 0
+    for cs, req, (resp, oc) in list(zip(cases, reqs, outs))[:: max(1, len(cases) // 40)]:
+        if oc != "ok" or not resp or resp.get("outcome") != "tree" or len(cs["doc"]) < 2: continue
+        has_title, tid, secs = project(resp["tree"])
+        want = [(s_["sub"], [(e["k"], list(e["ids"])) for e in s_["els"]]) for s_ in cs["secs"]]
+        flat = [(n, m) for n, (_, els) in enumerate(want) for m in range(len(els))]
+        if not flat: continue
+        n, m = flat[-1]
+        k, ids = want[n][1][m]
+        want[n][1][m] = (k, ids + [99])                       # an element that claims one more block
+        neg_tried += 1
+        if [(sid, els) for sid, els in secs] != want: neg_caught += 1
+    if neg_tried and neg_caught != neg_tried:
+        raise tlc.TlcError(f"negative control failed: {neg_tried - neg_caught} corrupted structures were accepted")
+    rep.cov.update({"negative_controls_tried": neg_tried, "negative_controls_passed": neg_caught})
     rep.cov.update({"states": t.generated, "distinct_states": t.distinct, "transitions": t.generated, "documents_emitted": len(t.cases),
                     "traces_validated_against_impl": len(cases), "documents_fully_matched": tally["ok"], "exhaustive": len(cases) == len(t.cases),
                     "rule": "every document of MC_G06 (block sequences over title, section subtitle, two subtitle levels, paragraph, code line, list, quote) "
